@@ -114,5 +114,9 @@ def polynomial_from_attributes(
         else:
             for key, values in zip(poly.keys, coefficients):
                 poly.values[key] = values
+    else:
+        # no coefficients to copy: zeros rather than whatever the memory held
+        for key in poly.keys:
+            poly.values[key] = 0
 
     return poly
